@@ -230,8 +230,10 @@ def k2(ctx, kr):
         elif tname == 'Identifier': allowed = {'variable'}
         elif tname == 'Comment': allowed = {'comment'}
         elif tname in ('Whitespace', 'Newline'): allowed = {None}
-        elif sp is not None and re.fullmatch(r'[A-Za-z_][A-Za-z_0-9]*', sp): allowed = {'keyword', 'modifier', 'operator', None}      # reserved words (absence is not a contradiction)
-        elif sp is not None: allowed = {'operator', 'keyword', None}                                                  # punctuation / operators
+        elif tname in ('And', 'Or', 'Xor', 'Not', 'Mod'): allowed = {'operator', 'keyword', None}                   # operators spelled as words
+        elif sp is not None and re.fullmatch(r'[A-Za-z_][A-Za-z_0-9]*', sp): allowed = {'keyword', 'modifier', None}                  # reserved words (absence is not a contradiction)
+        elif tname in ('Equal', 'NotEqual', 'Less', 'Greater', 'LessEqual', 'GreaterEqual', 'Div', 'Star', 'Plus', 'Minus', 'Power', 'Assignment'): allowed = {'operator', None}      # operator symbols
+        elif sp is not None: allowed = {'operator', 'keyword', None}                                                  # other punctuation (`..`, `=>`): the property names no class for it
         elif tname in ('SingleByteString', 'DoubleByteString'): allowed = {'string', None}
         else: allowed = {None, 'variable', 'keyword', 'operator', 'string', 'modifier'} - {'comment'}
         if got not in allowed:
